@@ -308,6 +308,10 @@ def hx(b):
 VALID_SYMS = [b"a", b"b", b" ", b"\r", b"\n", b"\xc2\xa0", b"\xe2\x80\xa8", b"\xe3\x80\x80", b"\xc2\x85",
               b"\xcc\x81", b"\xe2\x80\x8d", b"\xf0\x9f\x87\xa9", b"\x00", b"\t", b"\xc3\xa9", b"."]
 INVALID_SYMS = [b"\xe0\xa0", b"\xff", b"\xc0", b"\x80", b"\xf0\x90\x80", b"\xed\xa0\x80", b"\xf4\x90", b"\xc2"]
+# bytes / characters that are NOT line terminators but sit next to LF and CR in the code space or are line
+# breaks in other conventions: a line (in particular the unterminated last line) may end in one of them
+NEAR_NL = [b"\x0b", b"\x0c", b"\x09", b"\x0e", b"\x08", b"\x1c", b"\x1d", b"\x1e", b"\x1f", b"\xc2\x85",
+           b"\xe2\x80\xa8", b"\xe2\x80\xa9", b" "]
 
 
 def all_texts(syms, maxlen):
@@ -351,11 +355,15 @@ def rand_lines_text(rng, maxlines, invalid=False, alphabet=None):
     n = rng.randrange(0, maxlines + 1)
     if alphabet is None:
         alphabet = [rand_line(rng, invalid) for _ in range(rng.randrange(1, 6))] + [b"", b"a", b"b"]
+        if rng.random() < 0.3:
+            alphabet.append(rng.choice([b"", b"x", b"foo bar"]) + rng.choice(NEAR_NL))
     out = []
     for i in range(n):
         out.append(rng.choice(alphabet))
         if i + 1 < n or rng.random() < 0.7:
             out.append(rng.choice([b"\n", b"\n", b"\n", b"\r\n", b"\r"]))
+        elif rng.random() < 0.3:
+            out.append(rng.choice(NEAR_NL))      # unterminated last line ending in a near-newline byte
     return b"".join(out), alphabet
 
 
@@ -382,6 +390,8 @@ def edit_lines_text(rng, text, alphabet):
     out = b"".join(lines)
     if rng.random() < 0.15 and out.endswith(b"\n"):
         out = out[:-1]
+        if rng.random() < 0.3:
+            out += rng.choice(NEAR_NL)
     return out
 
 
